@@ -98,6 +98,11 @@ def c08_oracle(lines, out):
 
 class C08(Prop):
     pid = "C08"
+    category = "translation_validation"
+    level_text = ("Model/Gc.v (line-by-line model of gc_node.rs) agrees bit-exactly with the real collector on the complete hidden "
+                  "state after every operation of all bounded scripts; the property's statement is evaluated on the implementation's "
+                  "own state dumps. The exactness theorem is being proved (Proofs/GcExact*.v); until Props/C08.v exists the level is "
+                  "translation validation.")
     default_mode = "gc-run"
     design_ref = "DESIGN.md section 6 C08"
     rule = ("gc scripts over synthetic objects on the real GcCtx/GcNode: (a) breadth-first enumeration of ALL "
@@ -159,6 +164,10 @@ FAMILIES = ["ladder", "ladder_cyc", "fan", "fan_cyc", "chain", "chain_cyc", "cli
 
 class C16(Prop):
     pid = "C16"
+    level_text = ("Theorems over Model/Gc.v for EVERY collector state: every walk and the whole collect_cycles loop terminate with the "
+                  "model's fuel; one loop iteration traces every object and every edge at most 9 times; iterations <= 1 + objects freed. "
+                  "Tie: the implementation's tracer-call/callback counters equal the model's on graph families of growing size and on "
+                  "all bounded scripts.")
     default_mode = "gc-run"
     design_ref = "DESIGN.md section 6 C16"
     rule = ("graph families with sharing (ladders of diamonds, fans, chains, cliques; acyclic and cyclic; wholly dead and with "
